@@ -4,7 +4,7 @@ import z3
 
 from . import smt
 from .smt import IS, VS, Val, I, B, ISq, VSq
-from .values import (VInt, VBool, VSeq, VNone, VTuple, VList, VRef, VAny, VConst, VRecord, Unsupported, fresh,
+from .values import (VInt, VBool, VSeq, VNone, VTuple, VList, VRef, VAny, VConst, VRecord, VOpt, Unsupported, fresh,
                      parse_type, box, unbox, wt, wt_seq, sym_value, is_bytes_fact)
 from .engine import _ids, lit_seq
 
@@ -24,7 +24,11 @@ def sym_record(eng, st, cls, name=None):
     vals, facts = {}, []
     for f, ty in fields.items():
         ty = parse_type(ty)
-        if isinstance(ty, tuple) and ty[0] == "opt":
+        if isinstance(ty, tuple) and ty[0] == "opt" and isinstance(ty[1], tuple) and ty[1][0] == "record":
+            v, fs = sym_record(eng, st, ty[1][1], f"{name or cls}_{f}")
+            vals[f] = VOpt(fresh(f"{name or cls}_{f}_isnone", B), v)
+            facts += fs
+        elif isinstance(ty, tuple) and ty[0] == "opt":
             t = fresh(f"{name or cls}_{f}", Val)
             w = wt(t, ty[1])
             facts.append(z3.Or(Val.is_VN(t), z3.And(*w) if w else z3.BoolVal(True)))
